@@ -70,7 +70,7 @@ def has_s3(repo, cfg, store):
 class World:
     """1..n repositories with configs inside one sandbox"""
 
-    def __init__(self, rng, nrepos=1, settings=None, extra_lines=None, select_all=False):
+    def __init__(self, rng, nrepos=1, settings=None, extra_lines=None, select_all=False, name="sb"):
         self.rng = rng
         self.repos = []
         self.cfgs = {}
@@ -83,7 +83,7 @@ class World:
             self.cfgs[repo["url"]] = cfg
         self.settings = settings or {}
         self.extra_lines = extra_lines or []
-        self.sb = runner.Sandbox()
+        self.sb = runner.Sandbox(name)   # (two worlds alive at once need different names)
         self.sb.write_config(self.lines + self.extra_lines, self.settings)
 
     def stores(self, repos=None):
